@@ -2,7 +2,7 @@
 
 Walks the AST of every anchored file and lists
   * every call of a densifying method/function: .todense() .maybe_densify() .asnumpy()/asnumpy()
-    .toarray() .__array__();
+    .toarray() .__array__(), and of the allocating ndarray methods .repeat() .tile();
   * every call of a NumPy allocator (np.zeros ones full empty arange indices eye identity tile repeat
     *_like meshgrid tri linspace bincount outer kron, mgrid/ogrid subscripts) -- ALL of them, not only
     those whose argument text mentions `shape`/`size`/a product (a product of extents may hide behind
@@ -32,7 +32,8 @@ FILES = [
     "sparse/numba_backend/_compressed/indexing.py",
 ]
 
-DENSIFY_ATTRS = {"todense", "maybe_densify", "asnumpy", "toarray", "__array__"}
+DENSIFY_ATTRS = {"todense", "maybe_densify", "asnumpy", "toarray", "__array__",
+                 "repeat", "tile"}   # ndarray.repeat(n): an allocator spelled as a method
 DENSIFY_NAMES = {"asnumpy", "_todense"}
 ALLOC = {"zeros", "ones", "full", "empty", "arange", "indices", "eye", "identity", "tile", "repeat",
          "zeros_like", "ones_like", "full_like", "empty_like", "meshgrid", "tri", "linspace", "bincount",
